@@ -3,7 +3,12 @@
 seeded/plan.json), restoring /repo after each, and writes seeded/<id>/meta.json."""
 import json, os, subprocess, sys, re, glob
 
-ROOT = "/verif"
+# In a `vp run --with-repo` snapshot the script works on the snapshot of /verif it lives in and on the repository
+# snapshot ($VP_RUN_REPO): seeded changes are applied there, never to /repo, and ./check is pointed at it.
+ROOT = os.path.dirname(os.path.dirname(os.path.abspath(__file__)))
+REPO = os.environ.get("VP_RUN_REPO") or "/repo"
+if REPO != "/repo":
+    os.environ["RLMON_REPO"] = REPO
 only = sys.argv[1:]  # optional list of seeded ids
 plan = json.load(open(f"{ROOT}/seeded/plan.json")) if os.path.exists(f"{ROOT}/seeded/plan.json") else {}
 
@@ -11,7 +16,7 @@ def sh(cmd, **kw):
     return subprocess.run(cmd, shell=True, capture_output=True, text=True, **kw)
 
 def repo_clean():
-    return sh("git -C /repo status --porcelain --untracked-files=no").stdout.strip() == ""
+    return sh(f"git -C {REPO} status --porcelain --untracked-files=no").stdout.strip() == ""
 
 for d in sorted(glob.glob(f"{ROOT}/seeded/C*-*m[0-9]")):
     sid = os.path.basename(d)
@@ -19,8 +24,8 @@ for d in sorted(glob.glob(f"{ROOT}/seeded/C*-*m[0-9]")):
         continue
     prop = sid.split("-")[0]
     checks = [prop] + [c for c in plan.get(sid, {}).get("also", []) if c != prop]
-    assert repo_clean(), "/repo not clean"
-    r = sh(f"git -C /repo apply {d}/patch.diff")
+    assert repo_clean(), "repository not clean"
+    r = sh(f"git -C {REPO} apply {d}/patch.diff")
     if r.returncode != 0:
         print(sid, "PATCH DOES NOT APPLY", r.stderr[:200]); continue
     det = {}
@@ -33,7 +38,7 @@ for d in sorted(glob.glob(f"{ROOT}/seeded/C*-*m[0-9]")):
             det[c] = {"exit": out.returncode, "violation_signatures": sigs[:8]}
             print(sid, c, "exit", out.returncode, sigs[:3], flush=True)
     finally:
-        sh("git -C /repo checkout -- . && git -C /repo clean -fdq -- src tests")
+        sh(f"git -C {REPO} checkout -- . && git -C {REPO} clean -fdq -- src tests")
         sh(f"cp /tmp/evidence.keep/*.json {ROOT}/evidence/ && rm -rf /tmp/evidence.keep")
     am = json.load(open(f"{d}/agent_meta.json"))
     meta_path = f"{d}/meta.json"
@@ -46,7 +51,7 @@ for d in sorted(glob.glob(f"{ROOT}/seeded/C*-*m[0-9]")):
         "demo_path": am.get("demo_path"),
         "produced_by": "fresh sub-agent given only the property text (round 2: plus one-line summaries of the round-1 changes to avoid) and a scratch worktree of /repo (HEAD 3840924)",
         "confirmed": plan.get(sid, {}).get("confirmed", "tools/confirm_mutant.sh: patch applies; builds with and without --features verif-hooks; existing suite 56 passed 0 failed with the patch; demo passes on the base and fails with the patch"),
-        "ran": [f"tools/confirm_mutant.sh {prop} {sid.split('-')[1]}", f"git -C /repo apply seeded/{sid}/patch.diff; VERIF_SEED=1 ./check <id> quick for {checks}; git -C /repo checkout -- ."],
+        "ran": [f"tools/confirm_mutant.sh {prop} {sid.split('-')[1]}", f"git -C {REPO} apply seeded/{sid}/patch.diff; VERIF_SEED=1 ./check <id> quick for {checks}; git -C {REPO} checkout -- ."],
         "detection": det,
         "detected_by": [c for c, v in det.items() if v["exit"] == 1],
     })
